@@ -1,6 +1,7 @@
 (* C12 - Statistics only accumulate; taking a snapshot changes nothing.  Statements only. *)
 From Coq Require Import List ZArith Bool.
-From LP Require Import Trace.ZMap Trace.Concrete Trace.ConcreteFacts Trace.Main Trace.Witness.
+From Coq Require Import Sorted.
+From LP Require Import Trace.ZMap Trace.Concrete Trace.ConcreteFacts Trace.RefineLemmas Trace.Main Trace.Witness Trace.Stats Trace.Report.
 Import ListNotations.
 Open Scope Z_scope.
 
@@ -39,3 +40,14 @@ Theorem C12_reregister_keeps_data :
   = [[(0, [(2, 1, 0); (3, 1, 0)])]; [(0, [(2, 1, 0); (3, 1, 0)])]; [(0, [(2, 2, 0); (3, 2, 0)])]]
   /\ pad_ok (run rereg_codes 0 0 rereg_ops) = true.
 Proof. exact rereg_keeps_data. Qed.
+
+(* well-formedness of every snapshot of every run: each label's entries are sorted by line, carry the
+   sums over the label's buckets (hence one value per line), at least one hit and - with a monotone
+   clock, by C12_times_nonneg_and_monotone - non-negative time *)
+Theorem C12_wellformed :
+  forall codes tick start ops lbl ents,
+    In (lbl, ents) (get_stats codes (run codes tick start ops)) ->
+    Sorted le_line ents
+    /\ (forall l h1 t1 h2 t2, In (l, h1, t1) ents -> In (l, h2, t2) ents -> h1 = h2 /\ t1 = t2)
+    /\ (forall l h t, In (l, h, t) ents -> 1 <= h).
+Proof. exact snapshot_wellformed. Qed.
